@@ -296,11 +296,8 @@ fn run_kind(rep: &Report, kind: Kind, max_len: usize, small_priors: bool, faults
                 fault_runs += fr as u64;
             }
             Err(e) => {
-                let again = check_case(&ps[i], &bs[j], bs[j].len() <= faults_upto);
-                if again.as_ref().err() != Some(&e) {
-                    eprintln!("MACHINERY ERROR: C05 violation does not replay deterministically: {e}");
-                    std::process::exit(2);
-                }
+                let note = crate::util::confirm_or_exit("C05", &e, || check_case(&ps[i], &bs[j], bs[j].len() <= faults_upto).err());
+                let e = format!("{e}{note}");
                 rep.violation(Violation::new(
                     format!("{}:{kind:?}", e.split(':').next().unwrap_or("")),
                     e.clone(),
